@@ -4,3 +4,4 @@ from .common import run_tables
 
 def run(ck):
     run_tables(ck, 'C10.rate_of_change', cases.rate_of_change)
+    run_tables(ck, 'C10.speed', cases.speed)
